@@ -31,6 +31,15 @@ The status body of the scripted server comes in three shapes (third element of a
 default "started" body (start time, duration, progress 0.5), "q" = the body of a job still queued (no start
 time, no duration, progress 0, no phase) and "z" = falsy numbers / empty phase.  The model is independent of
 these fields (they are not transmitted to it beyond being ignored by the driver).
+
+Extension (`Model/C17X.lean`, "full machine"): histories that also contain `_to_dict()`, re-creation of the job from
+its dictionary (`_from_dict(_to_dict())`) or from its id (`from_id`), `job.name = …` and `execute_sync()`, with explicit
+progress / creation / start / duration fields in every status answer and a scripted clock (remote_job.time,
+job_status.time / sleep).  Compared per step, in addition: job name, creation_timestamp / start_timestamp / duration /
+progress / running_time (public accessors of the JobStatus, obtained without a request), dictionary contents, number of
+polls and sleeps of execute_sync.  Direct oracles for the new operations are in `extra_step`; the per-object oracles
+above keep running on re-created jobs.  `check_sync_clock` runs execute_sync under the real throttle (delay 1 s) and
+compares the ordered sequence of requests and sleeps with `syncLoopAt`.
 """
 from __future__ import annotations
 
@@ -1707,6 +1716,11 @@ def setup(chk):
         "time / progress fields of the status body are not compared",
         "job ids, status messages and result tokens are the position of the step in the history on both sides "
         "(freshness of a rerun id is the server's business)",
+        "full machine: times are integers, progress a multiple of 1/4; the JobStatus of a sent job is read through the "
+        "public `status` property under an enormous STATUS_REFRESH_DELAY (no request, no state change); direct oracles "
+        "assume a server that never reports a duration without a start time (bodies violating it are generated, "
+        "compared with the model, not judged); rerun() raising TypeError on a job without request data (from_id) is "
+        "compared with the model, not judged; refresh_progress_delay of re-created objects is the constructor default",
         "the model compared against is the REPAIRED behaviour (fixes/C17-*.diff); on a tree without the repairs the "
         "check reports the two known violations",
     ]
